@@ -32,9 +32,6 @@ theorem hasFilter_iff_registered (name : Bytes) :
   | nil => rfl
   | cons x xs ih => cases hx : x.name == name <;> simp [List.find?, hx, ih]
 
-/-- at present the two tables even list the filters in the same order -/
-example : generatedFilterSigs = stdFilters := by decide +kernel
-
 /-- `slice` as extracted: `func(string, int, func(int) int) string` -/
 example : lookupSig [115, 108, 105, 99, 101] = some ⟨[115, 108, 105, 99, 101], [.val .str, .val .int, .fn .int], false⟩ := by
   rw [lookupSig_is_source]; decide +kernel
